@@ -149,6 +149,16 @@ CHECKS = {
         "Trusted: unique rows identify p; distinctive thumb/trough characters; weakest readings in the evidence assumptions.",
         "DESIGN.md §4 C20",
     ),
+    "C06": (
+        MC,
+        "explicit-state BFS over histories of observations (render / rows at several sizes and focus values), public mutators, input handling, content edits and release + garbage collection of handed-out canvases, each history compared observation by observation with a from-scratch twin run that empties the canvas cache before every observation",
+        "6 fixtures (Frame/ListBox/Columns/AttrMap; Filler/Pile/Columns/Padding/LineBox/GridFlow/placeholder; Overlay/Frame/placeholder; ScrollBar/Scrollable/Pile; nested "
+        "Padding/AttrMap/LineBox; same widget twice + no_cache widget + ListBox over a signal-less walker), pre-rendered twice with both canvases alive; 8-19 mutators per fixture, 3-4 "
+        "observation points, rows(), drop oldest/newest/all + gc; depth 3/4; dedup on (widget state, live cache entries and dependency edges, canvases held); clauses same-render, "
+        "same-rows, handed-out-immutable.",
+        "Trusted: CPython refcounting makes release deterministic; the twin shares per-widget layout caches' behaviour; plain attribute assignment without a setter (Padding.left) is not a public mutator.",
+        "DESIGN.md §4 C06",
+    ),
 }
 
 PENDING_REASON = "check not built yet in this round (see DESIGN.md Appendix B build order); no claim is made"
